@@ -79,7 +79,7 @@ def extra_calls(impl_tokens, model_tokens):
     return False
 
 
-def shrink(hbin, driver, c, group):
+def shrink(hbin, driver, c, group, want="0"):
     """Greedy reduction of one violating request group: fewer items per message, no switches, fewer ACL
     entries, fewer endpoints / clusters - as long as the monitor still says 0 on the implementation's response."""
     budget = [60]
@@ -92,7 +92,7 @@ def shrink(hbin, driver, c, group):
             return False
         budget[0] -= 1
         r = group_verdict(hbin, driver, cc, grp)
-        return r is not None and "0" in r[1] and (not need_call or extra_calls(r[0], r[2]))
+        return r is not None and want in r[1] and (not need_call or extra_calls(r[0], r[2]))
 
     c = dict(c)
     group = list(group)
@@ -266,6 +266,7 @@ def main(tier, replay=None):
     harness_errors = []
     reported = 0
     reruns_ok = 0
+    known_hits = 0
     seen_groups = set()
     served = refused = bare = calls = 0
     kinds = {}
@@ -307,12 +308,39 @@ def main(tier, replay=None):
                 n_mon += 1 if v == "1" else 0
                 if v != "0":
                     continue
-            if v == ".":
+            if v in ".?":
                 n_unparsed += 1
                 continue
             if r != "N":
                 n_mon += 1
             if v == "1":
+                continue
+            if v == "k":
+                # the property is violated in the way of the known finding only (classified by the extracted
+                # holds_events_known): reported under its stable name, once, with a minimised replay
+                known_hits += 1
+                if known_hits == 1:
+                    small_c, small_g = shrink(hbin, driver, cs, [rq], want="k")
+                    one = group_verdict(hbin, driver, small_c, small_g)
+                    if one is None or "k" not in one[1]:
+                        small_c, small_g = cs, [rq]
+                        one = group_verdict(hbin, driver, cs, [rq]) or ([r], "k", [])
+                    c.violation("absent-event-no-status", "\n".join([
+                        "property C06 fails on the implementation (known finding absent-event-no-status): a ReadRequest names a "
+                        "concrete event path whose cluster exists on the endpoint but whose event id is not among the cluster's "
+                        "events; the property demands an EventStatusIB UnsupportedEvent (0xC7 = 199) for that path, the implementation "
+                        "answers nothing for it (im.rs report_events skips UnsupportedEvent on purpose). Everything else in the "
+                        "answer is as specified (Model/ImEvents.v holds_events_known).",
+                        "case: " + join_case(small_c, small_g),
+                        "implementation : " + " ".join(one[0]),
+                        "specification  : the same with S<path>:199 for every such path",
+                        "model of the code (Im.v / ImEvents.v): " + " ".join(one[2]),
+                        "original case  : " + cl[:600],
+                        EXPLAIN,
+                        "replay: bin/check C06 quick --replay <this file>"]))
+                continue
+            if v not in "0":
+                n_unparsed += 1
                 continue
             gi, gj = group_bounds(cs["reqs"], k)
             if (key, gi) in seen_groups:
@@ -421,6 +449,7 @@ def main(tier, replay=None):
         "monitor_checks": n_mon,
         "monitor_unparsed": n_unparsed,
         "monitor_violations": mon_viol,
+        "known_finding_absent_event_no_status_requests": known_hits,
         "monitor_violations_not_reproduced_on_rerun": reruns_ok,
         "disagreements_checked": len(diffs),
         "exhaustive": False,
